@@ -405,7 +405,36 @@ def r_all_dims(cx):
                   "default %s ranges over 0..self.dim()" % meth if ok else
                   "the default CoordinateTuple::%s does not range over all of 0..self.dim(): some dimension does not "
                   "take part in the element-wise operation" % meth, cx.where(f.term(lp.header)["span"]))
+        if not loops:
+            # the same written as an iterator chain: `(0..self.dim()).for_each(..)` / `.map(..).fold(..)`
+            for bb, t in f.calls():
+                tail = (f.callee(t) or "").rsplit("::", 1)[-1]
+                if tail not in ("for_each", "map", "fold", "sum", "try_for_each"):
+                    continue
+                recv = mir.strip_refs(f.arg_terms(bb)[0])
+                rng = []
+                mir.walk(recv, lambda y: (rng.append(y) if y[0] == "agg" and "Range" in str(y[1]) and len(y[2]) == 2 else None) or True)
+                if not rng:
+                    continue
+                if tail in ("fold", "sum") and any(x[0] == "call" and str(x[1]).rsplit("::", 1)[-1] == "map" for x in [recv]):
+                    continue        # the map underneath is judged
+                n += 1
+                r = rng[0]
+                lo, hi = r[2]
+                ok = "Inclusive" not in str(r[1]) and lo[0] == "const" and lo[2] == 0 and _is_dim_call(hi) and \
+                    not [1 for y in [recv] if _narrowed(y)]
+                cx.ob("R-ALL-DIMS", "%s/chain%d" % (meth, n), ok,
+                      "default %s ranges over 0..self.dim()" % meth if ok else
+                      "the default CoordinateTuple::%s does not range over all of 0..self.dim(): some dimension does not "
+                      "take part in the element-wise operation" % meth, cx.where(t["span"]))
     cx.count("R-ALL-DIMS", "loops", n)
+
+
+def _narrowed(t):
+    hit = []
+    mir.walk(t, lambda y: (hit.append(1) if y[0] == "call" and isinstance(y[1], str) and
+                           y[1].rsplit("::", 1)[-1] in ("take", "skip", "step_by", "take_while", "skip_while", "filter") else None) or True)
+    return bool(hit)
 
 
 # ---------------------------------------------------------------------------------------------------------------------
